@@ -289,7 +289,9 @@ class InProtocolBase(ProtocolMixin):
 
         try:
             retval = _uuid_deserialize[ser_as](retval)
-        except (ValueError, TypeError, UnicodeDecodeError) as e:
+        except (ValueError, TypeError, UnicodeDecodeError, AttributeError) as e:
+            # AttributeError: uuid.UUID() with a number, a list etc. from a
+            # document that carries native values
             raise ValidationError(e)
 
         return retval
@@ -362,7 +364,9 @@ class InProtocolBase(ProtocolMixin):
 
         try:
             return D(string)
-        except InvalidOperation as e:
+        except (InvalidOperation, ValueError, TypeError) as e:
+            # ValueError, TypeError: a list, a dict etc. in a document that
+            # carries native values
             raise ValidationError(string, "%%r: %r" % e)
 
     def decimal_from_bytes(self, cls, string):
